@@ -194,3 +194,23 @@ def hash_str(s):
 
 def now():
     return time.time()
+
+
+def optimised_interpreter_probe(res, what):
+    """the scenarios of harness/probe_opt.py in a child interpreter started with -O (a node may be started that way)"""
+    p = subprocess.run([sys.executable, "-O", "-m", "harness.probe_opt", what], cwd=VERIF, stdout=subprocess.PIPE,
+                       stderr=subprocess.PIPE, env={**os.environ, "PYTHONDONTWRITEBYTECODE": "1", "PYTHONOPTIMIZE": "1"},
+                       timeout=600)
+    line = [l for l in p.stdout.decode(errors="replace").splitlines() if l.startswith("PROBE ")]
+    res.case(("python -O", what), nontrivial=True)
+    res.count("optimised_interpreter_probe:" + what)
+    if not line:
+        raise RuntimeError("the probe under python -O did not report: %s" % p.stderr.decode(errors="replace")[-400:])
+    out = json.loads(line[-1][6:])
+    if "error" in out:
+        raise RuntimeError("the probe under python -O failed: %s" % out["error"])
+    if not out.get("optimised"):
+        raise RuntimeError("the probe did not run with assertions disabled")
+    for f in out["findings"]:
+        res.violations.append({"kind": "in an interpreter started with -O (assert statements compiled out): " + f,
+                               "replay": "cd /verif && SKEPTICOIN_REPO=%s %s -O -m harness.probe_opt %s" % (REPO, sys.executable, what)})
